@@ -18,6 +18,7 @@ import (
 	"github.com/segmentio/kafka-go/protocol/findcoordinator"
 	"github.com/segmentio/kafka-go/protocol/listoffsets"
 	"github.com/segmentio/kafka-go/protocol/metadata"
+	"github.com/segmentio/kafka-go/protocol/produce"
 
 	"kvharness/internal/muxfake"
 )
@@ -175,7 +176,13 @@ func (b *tBroker) serve(conn net.Conn, j *tJournal, r *rand.Rand) {
 // tag and a generous deadline.
 func transportScenario(r *rand.Rand, thorough bool, lateFamily bool) {
 	b := &tBroker{r: rand.New(rand.NewSource(r.Int63())), pFault: []int{0, 15, 35}[r.Intn(3)], slow: time.Duration(80+r.Intn(60)) * time.Millisecond}
-	tr := &kafka.Transport{Dial: b.dial, MetadataTTL: 24 * time.Hour, IdleTimeout: time.Hour, ClientID: "c06"}
+	// sometimes idle connections expire between (and during) the calls: the idle timer's removeConn races with grabConn
+	idle := []time.Duration{time.Hour, time.Hour, 2 * time.Millisecond, 8 * time.Millisecond}[r.Intn(4)]
+	if lateFamily {
+		idle = time.Hour
+	}
+	closeMid := !lateFamily && r.Intn(5) == 0 // CloseIdleConnections while calls are in flight
+	tr := &kafka.Transport{Dial: b.dial, MetadataTTL: 24 * time.Hour, IdleTimeout: idle, ClientID: "c06"}
 	addr := kafka.TCP("broker1:9092")
 	kafka.VerifStart()
 	// warm-up: the pool becomes ready (discover's Metadata exchange on the first ctrl conn)
@@ -208,7 +215,7 @@ func transportScenario(r *rand.Rand, thorough bool, lateFamily bool) {
 		}
 		plans := make([]plan, perG)
 		for i := range plans {
-			plans[i].kind = []string{"offsets", "coord"}[r.Intn(2)]
+			plans[i].kind = []string{"offsets", "coord", "offsets", "coord", "emptyproduce"}[r.Intn(5)]
 			switch r.Intn(3) {
 			case 0:
 				plans[i].timeout = time.Duration(20+r.Intn(40)) * time.Millisecond
@@ -236,7 +243,12 @@ func transportScenario(r *rand.Rand, thorough bool, lateFamily bool) {
 					time.AfterFunc(p.cancel, cancel)
 				}
 				var req kafka.Request
-				if p.kind == "offsets" {
+				if p.kind == "emptyproduce" {
+					// a produce request without records cannot be encoded (protocol.ErrNoRecord): nothing is written,
+					// the pooled connection is kept
+					req = &produce.Request{Acks: 1, Timeout: 1000, Topics: []produce.RequestTopic{{Topic: "t",
+						Partitions: []produce.RequestPartition{{Partition: 0}}}}}
+				} else if p.kind == "offsets" {
 					req = &listoffsets.Request{Topics: []listoffsets.RequestTopic{{Topic: "t",
 						Partitions: []listoffsets.RequestPartition{{Partition: 0, Timestamp: int64(tag)}}}}}
 				} else {
@@ -268,6 +280,10 @@ func transportScenario(r *rand.Rand, thorough bool, lateFamily bool) {
 			}
 		}(g)
 	}
+	if closeMid {
+		time.Sleep(time.Duration(1+r.Intn(20)) * time.Millisecond)
+		tr.CloseIdleConnections()
+	}
 	wg.Wait()
 	tr.CloseIdleConnections()
 	time.Sleep(3 * time.Millisecond)
@@ -283,7 +299,8 @@ func transportScenario(r *rand.Rand, thorough bool, lateFamily bool) {
 	// link hook conn ids to broker connections
 	connOf := map[string]int{}  // "#n" → broker conn index
 	groupOf := map[string]int{} // "#g" → small group number
-	recvd := map[string]int{}   // "#n" → number of T.Recv so far
+	recvd := map[string]int{}   // "#n" → number of requests of this conn matched with the broker's journal so far
+	pendingRecv := map[string]int{}
 	var es []string
 	for _, t := range abandoned {
 		es = append(es, fmt.Sprintf("A%d", t))
@@ -291,6 +308,25 @@ func transportScenario(r *rand.Rand, thorough bool, lateFamily bool) {
 	cid := func(a string) int {
 		n, _ := strconv.Atoi(strings.TrimPrefix(a, "#"))
 		return n
+	}
+	// the recorder names objects by address: a *conn allocated after another one was freed can get the same "#n".
+	// Give every T.New a fresh name and rename the following events of that address accordingly.
+	{
+		cur := map[string]string{}
+		fresh := 0
+		for i := range evs {
+			e := &evs[i]
+			if !strings.HasPrefix(e.Kind, "T.") || e.Kind == "T.CloseIdle" || len(e.Args) == 0 {
+				continue
+			}
+			if e.Kind == "T.New" {
+				fresh++
+				cur[e.Args[0]] = fmt.Sprintf("#%d", 1000+fresh)
+			}
+			if v, ok := cur[e.Args[0]]; ok {
+				e.Args = append([]string{v}, e.Args[1:]...)
+			}
+		}
 	}
 	for _, e := range evs {
 		if strings.HasPrefix(e.Kind, "T.") && e.Kind != "T.New" && e.Kind != "T.CloseIdle" {
@@ -309,19 +345,28 @@ func transportScenario(r *rand.Rand, thorough bool, lateFamily bool) {
 		case "T.Grab":
 			es = append(es, fmt.Sprintf("G%d", cid(e.Args[0])))
 		case "T.Recv":
-			k := recvd[e.Args[0]]
-			recvd[e.Args[0]] = k + 1
-			tag := 0
-			if j := conns[connOf[e.Args[0]]]; k < len(j.reqs) {
-				tag = j.reqs[k]
-			}
-			es = append(es, fmt.Sprintf("R%d:%d", cid(e.Args[0]), tag))
+			// the tag is that of the next request the broker received on this connection — unless the exchange ends
+			// with ErrNoRecord (the request was never written): decided when T.Done arrives
+			pendingRecv[e.Args[0]] = len(es)
+			es = append(es, "")
 		case "T.Done":
 			o := "err"
 			if e.Args[1] == "true" {
 				o = "ok"
 			} else if e.Args[2] == "true" {
 				o = "keep"
+			}
+			if at, ok := pendingRecv[e.Args[0]]; ok {
+				tag := 0
+				if o != "keep" {
+					k := recvd[e.Args[0]]
+					recvd[e.Args[0]] = k + 1
+					if j := conns[connOf[e.Args[0]]]; k < len(j.reqs) {
+						tag = j.reqs[k]
+					}
+				}
+				es[at] = fmt.Sprintf("R%d:%d", cid(e.Args[0]), tag)
+				delete(pendingRecv, e.Args[0])
 			}
 			es = append(es, fmt.Sprintf("D%d:%s", cid(e.Args[0]), o))
 		case "T.Release":
@@ -340,6 +385,14 @@ func transportScenario(r *rand.Rand, thorough bool, lateFamily bool) {
 			}
 			es = append(es, fmt.Sprintf("C%d", groupOf[e.Args[0]]))
 		}
+	}
+	for h, at := range pendingRecv {
+		tag := 0
+		k := recvd[h]
+		if j := conns[connOf[h]]; k < len(j.reqs) {
+			tag = j.reqs[k]
+		}
+		es[at] = fmt.Sprintf("R%d:%d", cid(h), tag)
 	}
 	var js []string
 	for h, k := range connOf {
